@@ -7,6 +7,7 @@ use std::env;
 mod u_partial;
 mod u_members;
 mod u_readers;
+mod u_packfmt;
 
 #[global_allocator]
 static GLOBAL: u_readers::Counting = u_readers::Counting;
@@ -25,6 +26,7 @@ fn main() {
         ("run", "c02_partial") => u_partial::run(rest),
         ("search", "c18_members") => u_members::search(),
         ("search", "c09_readers") => u_readers::search(),
+        ("search", "c09_packfmt") => u_packfmt::search(),
         _ => {
             eprintln!("unknown unit {unit}");
             std::process::exit(2);
